@@ -7,6 +7,7 @@ mod anchor;
 mod eval;
 mod exec;
 mod fallback;
+mod fuzz;
 mod hook;
 mod names;
 mod prims;
@@ -43,6 +44,7 @@ fn main() {
         "one" => replay::one(&opts),
         "names" => names::main(&opts),
         "fallback" => fallback::main(&opts),
+        "fuzz" => fuzz::main(&opts),
         _ => usage(),
     };
     match r {
